@@ -47,6 +47,56 @@ def pool_seams(lines=True):
     return tp
 
 
+class _UUIDShim(object):
+    """Deterministic request ids: jsonrpclib.jsonrpc.uuid."""
+
+    @staticmethod
+    def uuid4():
+        import uuid
+        from . import core
+
+        s = core._ACTIVE
+        if s is None:
+            return uuid.uuid4()
+        s.idgen += 1
+        return uuid.UUID(int=(0x4000 << 64) | (0x8000 << 48) | s.idgen)
+
+
+def net_seams(lines=("server", "client", "pool")):
+    """The whole client/server stack on simulated sockets, threads and clock."""
+    repo()
+    pool_seams(lines="pool" in lines)
+    from . import core, simthreading, simnet
+    import socketserver
+    import http.client
+    import http.server
+    import jsonrpclib.jsonrpc as jc
+    import jsonrpclib.SimpleJSONRPCServer as js
+
+    if "net" not in _done:
+        sm = simnet.module()
+        socketserver.socket = sm
+        socketserver._ServerSelector = simnet.SimSelector
+        socketserver.time = simnet.sim_monotonic
+        socketserver.threading = simthreading.module()
+        http.client.socket = sm
+        http.server.time = simnet.SimTimeModule()
+        jc.socket = sm
+        jc.uuid = _UUIDShim
+        js.fcntl = None
+        _done["net"] = True
+    mods = []
+    if "server" in lines and "server-lines" not in _done:
+        mods.append(js)
+        _done["server-lines"] = True
+    if "client" in lines and "client-lines" not in _done:
+        mods.append(jc)
+        _done["client-lines"] = True
+    if mods:
+        core.instrument_modules(mods)
+    return jc, js
+
+
 def tree_id():
     """A hash of the jsonrpclib sources the check ran against."""
     import hashlib
